@@ -4,6 +4,7 @@ Line-protocol driver for the node-recovery model (C07).
   reset
   append <m> <t> | begin | take | acquire | write | commit   (WAL Put; the steps of localReplicator.Replica / WriteRows)
   apply                                             (= begin take acquire write commit: one Replica call)
+  appendbad                                         (a log entry whose payload does not decompress)
   wgc                                               (WAL garbage-collect tick on an expired family: writeAheadLog.destroy)
   recoverp                                          (recover + rewind, answering positions and files only)
   mprep | mflushm | mflusht | iprep | iflush        (metadata / index dictionary flush steps)
@@ -27,7 +28,8 @@ import LinVerif.Generated.C07
 namespace LinVerif.Driver.C07
 open LinVerif LinVerif.NodeRecovery
 
-def cfg : Cfg := ⟨LinVerif.Generated.C07.swapOnEmpty, LinVerif.Generated.C07.atomicAcquire⟩
+def cfg : Cfg :=
+  ⟨LinVerif.Generated.C07.swapOnEmpty, LinVerif.Generated.C07.atomicAcquire, LinVerif.Generated.C07.ignoreExact⟩
 
 def showOpt : Option Int → String
   | some x => toString x
@@ -91,6 +93,7 @@ def stepLine (st : St) (ws : List String) : St × String :=
   | ["findex"] =>      -- shard.FlushIndex + WaitFlushIndexCompleted
     let st' := run cfg st [.indexPrepare, .indexFlush]
     (st', showPos st')
+  | ["appendbad"] => ev st .appendBad
   | ["begin"] => ev st .applyBegin
   | ["take"] => ev st .applyTake
   | ["acquire"] => ev st .applyAcquire
